@@ -175,7 +175,10 @@ def correspond_io(rng, tier, driver, res, cases):
             if a is None:
                 res.disagreements.append({"case": c, "real": "-", "model": ans, "request": line[:300]})
                 continue
-            sb = sc.run_sandbox(c)
+            sb = sc.run_sandbox_guarded(c, 30)
+            if "hung" in sb:
+                res.disagreements.append({"case": c, "real": "still running after %s s" % sb["hung"], "model": ans[:200]})
+                continue
             if "escaped" in sb:
                 res.disagreements.append({"case": c, "real": "escaped " + sb["escaped"], "model": ans[:200]})
                 continue
@@ -252,7 +255,15 @@ CALL_ARGS = ["3", "'abc'", "None", "[1, 2]", "{'k': (1, 2)}", "float('inf')", "f
              "0.0", "0", "False", "[1, 2]", "(1, 2)", "[True, 2]", "[1.0, 2.0]", "STUDENT:Stack([1.0, 2.0])"]
 
 
+# a subclass instance INSIDE a container (flattened by the tree before 60d78f2): generated under the same condition as the
+# nested history groups
+NESTED_CALL_ARGS = ["STUDENT:[Score(3)]", "[3]", "STUDENT:{'k': Stack([1, 2])}", "{'k': [1, 2]}", "STUDENT:(Celsius(-0.0),)",
+                    "(-0.0,)", "STUDENT:[Name('abc'), 'd']", "['abc', 'd']"]
+
+
 def make_call_case(rng):
+    if shist.nested_finding_registered() and NESTED_CALL_ARGS[0] not in CALL_ARGS:
+        CALL_ARGS.extend(NESTED_CALL_ARGS)
     extras = {}
     if rng.random() < 0.35:
         extras["%sarg_%d" % (temp_prefix(), rng.randint(0, 2))] = "'shadowed global'"
@@ -533,7 +544,10 @@ def shrink(case, sig):
             r = sc.run_reference([c])[0]
             if "timeout" in r or "harness_error" in r:
                 return None
-            return sc.judge(c, r, sc.run_sandbox(c))
+            sb = sc.run_sandbox_guarded(c, 5)
+            if "hung" in sb and sig.get("kind") != "sandbox-does-not-finish":
+                return None     # what the shrinker left does not terminate on the path the sandbox takes
+            return sc.judge(c, r, sb)
         except Exception:       # noqa
             return None
     cur = dict(case)
@@ -654,7 +668,7 @@ def search(rng, tier, broken, corr):
             continue
         info["evaluations"] += 1
         try:
-            sb = sc.run_sandbox(c)
+            sb = sc.run_sandbox_guarded(c, 30)
             v = sc.judge(c, r, sb)
         except Exception as e:       # noqa
             info.setdefault("harness_errors", []).append("%s: %s" % (type(e).__name__, e))
@@ -687,7 +701,7 @@ def search(rng, tier, broken, corr):
             small = shrink(c, v[0]) if shrink_spent < (20 if tier == "quick" else 180) else c
         shrink_spent += time.time() - t_sh
         r2 = sc.run_reference([small])[0]
-        sb2 = sc.run_sandbox(small)
+        sb2 = sc.run_sandbox_guarded(small, 30)
         v2 = sc.judge(small, r2, sb2) or v
         failures[key] = Failure(v[0], v2[1], {"case": small, "plain": {"outcome": r2.get("outcome"),
                                                                        "text": sc.plain_text(r2.get("events", []))[-400:]},
@@ -742,7 +756,7 @@ def replay(payload):
         print(json.dumps(case, indent=1))
         return 0
     r = sc.run_reference([case])[0]
-    sb = sc.run_sandbox(case)
+    sb = sc.run_sandbox_guarded(case, 30)
     v = sc.judge(case, r, sb)
     print("program  :\n" + case["code"])
     print("inputs   :", case.get("inputs"), " calls:", case.get("calls"))
